@@ -302,13 +302,18 @@ func (e mwEngine) Gen(t *rapid.T, tier string) any {
 		}
 		nd := rapid.IntRange(0, 6).Draw(t, "ndown")
 		sendUniq := hasKind(c.Stack, "sendunique")
-		if sendUniq {
+		if sendUniq || uniq {
 			nd = rapid.IntRange(3, 14).Draw(t, "ndown-unique")
 		}
 		for i := 0; i < nd; i++ {
 			d := mwDown{T: rapid.SampledFrom([]string{"EOSE", "EVENT", "EVENT", "EVENT", "OK", "NOTICE", "CLOSED", "CLOSED", "COUNT", "AUTH"}).Draw(t, "dt")}
 			if sendUniq && rapid.IntRange(0, 3).Draw(t, "force-down-event") > 0 {
 				d.T = "EVENT"
+			}
+			if uniq && !sendUniq && rapid.IntRange(0, 1).Draw(t, "force-down-ok") == 0 {
+				// verdicts about the few event ids in play come back while the
+				// client keeps repeating them
+				d.T = "OK"
 			}
 			if rapid.IntRange(0, 5).Draw(t, "dsleep") == 0 {
 				d.T = "SLEEP"
